@@ -3,6 +3,7 @@ package main
 import (
 	"fmt"
 	"math/big"
+	"os"
 	"strings"
 
 	"golang.org/x/tools/go/ssa"
@@ -569,6 +570,98 @@ func propC12(a *Analysis, r *Registry) {
 			for k := 1; k <= 3; k++ {
 				b.EqRF(rB, name+"/same-bracket#"+itoa(k), b.pos(fn), byTarget[1].Args[k], byTarget[0].Args[k], "both bisections use the same bracket and tolerance")
 			}
+			// the bracket expansion (when written in Bounds itself): an end is moved away from the
+			// other by the current width exactly while the CDF there is still inside the target —
+			// the low end while 0.005 < CDF(low), then the high end while CDF(high) < 0.995; the
+			// bracket handed to the bisections is what the two loops leave
+			func() {
+				brLo, brHi := byTarget[0].Args[1], byTarget[0].Args[2]
+				nDown, nUp := 0, 0
+				for _, l := range fc.Ctx.Loops() {
+					_, guard, _, msg := b.loopGuard(fc, l.Header)
+					if msg != "" {
+						continue
+					}
+					ga := guard.SingleAtom()
+					if os.Getenv("GMSA_DEBUG_C12") != "" {
+						fmt.Fprintf(os.Stderr, "C12 loop guard=%s\n", clip(guard.String(), 300))
+					}
+					if ga == nil || ga.Name != "cmp<" {
+						continue
+					}
+					var xs []*RF
+					for _, in := range l.Header.Instrs {
+						ph, ok := in.(*ssa.Phi)
+						if !ok {
+							break
+						}
+						if isFloatType(ph.Type()) {
+							// (a value merged at the header but not changed by the loop is not carried)
+							if _, pn := recurrenceOrNil(fc, fc.Val(ph)); pn != nil && !pn.Equal(fc.Val(ph)) {
+								xs = append(xs, fc.Val(ph))
+							}
+						}
+					}
+					if os.Getenv("GMSA_DEBUG_C12") != "" {
+						fmt.Fprintf(os.Stderr, "C12 carried floats: %d\n", len(xs))
+						for _, x := range xs {
+							xi, xn := recurrenceOrNil(fc, x)
+							fmt.Fprintf(os.Stderr, "  %s init=%v next=%v\n", x, xi, xn)
+						}
+					}
+					if len(xs) != 1 {
+						continue
+					}
+					x := xs[0]
+					xi, xn := recurrenceOrNil(fc, x)
+					if xi == nil {
+						continue
+					}
+					lwhere := a.W.InstrPos(l.Header.Instrs[len(l.Header.Instrs)-1])
+					e3 := X.EnvFor(fn, "kde")
+					e3.Set("xx", x, nil)
+					cdfx := e3.MustParse("kde.CDF(xx)")
+					other := x.Add(x).Sub(xn)
+					inv := len(fc.loopPhis(other)) == 0 || func() bool {
+						for _, ph := range fc.loopPhis(other) {
+							if pa := ph.SingleAtom(); pa != nil && X.phiOf[pa.ID] != nil && X.phiOf[pa.ID].Block() == l.Header {
+								return false
+							}
+						}
+						return true
+					}()
+					switch {
+					case ga.Args[1].Equal(cdfx) && constIs(ga.Args[0], 0.005):
+						nDown++
+						cn := name + "/expansion/low"
+						if inv {
+							r.OK(rB, cn+"/step", lwhere, "while 0.005 < CDF(low): low moves down by the current width (low' = 2·low − high)")
+						} else {
+							r.Fail(rB, cn+"/step", lwhere, "the low end does not move away from the high end by the current width: low' = "+clip(xn.String(), 120))
+						}
+						if ba := brLo.SingleAtom(); ba != nil && X.phiOf[ba.ID] != nil {
+							b.EqRF(rB, cn+"/bracket", lwhere, brLo, x, "the low end the loop leaves is the bracket's low end")
+						}
+					case ga.Args[0].Equal(cdfx) && constIs(ga.Args[1], 0.995):
+						nUp++
+						cn := name + "/expansion/high"
+						if inv {
+							r.OK(rB, cn+"/step", lwhere, "while CDF(high) < 0.995: high moves up by the current width (high' = 2·high − low)")
+						} else {
+							r.Fail(rB, cn+"/step", lwhere, "the high end does not move away from the low end by the current width: high' = "+clip(xn.String(), 120))
+						}
+						if ba := brLo.SingleAtom(); ba != nil && X.phiOf[ba.ID] != nil {
+							b.EqRF(rB, cn+"/other-end", lwhere, other, brLo, "the width is measured from the bracket's low end")
+						}
+						if ba := brHi.SingleAtom(); ba != nil && X.phiOf[ba.ID] != nil {
+							b.EqRF(rB, cn+"/bracket", lwhere, brHi, x, "the high end the loop leaves is the bracket's high end")
+						}
+					}
+				}
+				if nDown+nUp > 0 && (nDown != 1 || nUp != 1) {
+					r.Fail(rB, name+"/expansion", b.pos(fn), fmt.Sprintf("expected one loop lowering the low end and one raising the high end, found %d/%d", nDown, nUp))
+				}
+			}()
 			env.Set("lo", S.atomRF(byTarget[0].ID), nil)
 			env.Set("hi", S.atomRF(byTarget[1].ID), nil)
 			env.Let("bc", "kde.prepare()#1")
@@ -584,4 +677,14 @@ func argsOf(fc *FC, c *ssa.Call) []*RF {
 		out = append(out, fc.Val(a))
 	}
 	return out
+}
+
+// constIs: r is a constant whose nearest float64 is f.
+func constIs(r *RF, f float64) bool {
+	c, ok := r.IsConst()
+	if !ok {
+		return false
+	}
+	v, _ := c.Float64()
+	return v == f
 }
